@@ -364,6 +364,58 @@ def whloop_cases(ctx, rebound, ncases):
     return cases
 
 
+# ------------------------------------------------------------------ MEGNO bookkeeping correspondence
+def megno_cases(ctx, rebound, ncases):
+    """reb_tools_megno_deltad_delta / reb_tools_megno_update / reb_simulation_megno / reb_simulation_lyapunov called directly."""
+    rng = ctx.rng
+    clib = rebound.clibrebound
+    D = ctypes.c_double
+    clib.reb_tools_megno_deltad_delta.restype = D
+    clib.reb_simulation_megno.restype = D
+    clib.reb_simulation_lyapunov.restype = D
+    cases = []
+    for k in range(ncases):
+        sim = rebound.Simulation()
+        n = rng.choice([1, 2, 3, 5])
+        for i in range(n):
+            sim.add(m=1.0 if i == 0 else 1e-3, x=float(i), vy=1.0 if i else 0.0)
+        if rng.random() < 0.3:
+            sim.add_variation()
+        sim.init_megno(seed=rng.randrange(1 << 30))
+        if k % 2 == 0:
+            idx = sim._calculate_megno
+            ps = []
+            for i in range(n):
+                p = sim.particles[idx + i]
+                vals = [rng.gauss(0, 1) * 10 ** rng.uniform(-2, 2) for _ in range(9)]
+                p.x, p.y, p.z, p.vx, p.vy, p.vz, p.ax, p.ay, p.az = vals
+                ps.append(vals)
+            dt, t = rng.uniform(-0.1, 0.1), rng.uniform(0, 1e4)
+            dd = clib.reb_tools_megno_deltad_delta(ctypes.byref(sim))
+            exp = [dd, dt * 2. * t * dd]
+            term = "(runDD %s %s [%s])" % (vlib.fhex(dt), vlib.fhex(t), "; ".join(vlib.flist(v) for v in ps))
+            cases.append(("megno_dd", term, exp, {"kind": "deltad_delta", "N": n}))
+        else:
+            ups, t = [], 0.0
+            for j in range(rng.choice([1, 2, 3, 10, 40])):
+                dtd = rng.uniform(0.001, 0.5)
+                t = t + dtd if rng.random() < 0.95 else t
+                if j == 0 and rng.random() < 0.1:
+                    t = 0.0
+                dY = rng.gauss(0, 1) * t
+                sim.t = t
+                clib.reb_tools_megno_update(ctypes.byref(sim), D(dY), D(dtd))
+                ups.append((t, dY, dtd))
+            tq = rng.choice([t, 0.0, t * 2])
+            sim.t = tq
+            exp = [sim._megno_Ys, sim._megno_Yss, sim._megno_mean_t, sim._megno_mean_Y, sim._megno_cov_Yt, sim._megno_var_t,
+                   clib.reb_simulation_megno(ctypes.byref(sim)), clib.reb_simulation_lyapunov(ctypes.byref(sim))]
+            term = "(runMegno [%s] %s)" % ("; ".join("(%s, %s, %s)" % tuple(vlib.fhex(v) for v in u) for u in ups), vlib.fhex(tq))
+            cases.append(("megno_upd", term, exp, {"kind": "update", "updates": len(ups)}))
+        ctx.case(key=(cases[-1][0], n, len(cases[-1][2])))
+    return cases
+
+
 def run_corr(ctx, label, cases, header):
     jobs = []
     for c0, ch in chunks(cases, 60):
@@ -383,7 +435,7 @@ def run_corr(ctx, label, cases, header):
 
 
 HEADER = ("From Coq Require Import List ZArith PrimFloat.\nFrom RV Require Import Common.Num Common.FloatNum C02.Model C02.Run "
-          "C16.GravityVar Gen.Derivs C16.Rescale C16.WhInteraction C16.Run.\nImport ListNotations.\nOpen Scope float_scope.\n")
+          "C16.GravityVar Gen.Derivs C16.Rescale C16.WhInteraction C16.Megno C16.Run.\nImport ListNotations.\nOpen Scope float_scope.\n")
 
 
 def run(ctx):
@@ -401,6 +453,12 @@ def run(ctx):
     if ctx.thorough and chk_env != "0":
         os.environ["VERIF_COQCHK"] = chk_env
         coqchk_parallel(ctx)
+    if ctx.thorough:
+        ok_pa, out_pa = vlib.coq_eval("c16_pa_d2", "From RV Require Import C16.Deriv2All.\nPrint Assumptions d2_all_proved.\n", timeout=900)
+        import re as _re2
+        ax = sorted(set(m.group(1) for m in _re2.finditer(r"^([A-Za-z_][\w\.']*)\s*(?::|$)", out_pa.split("Axioms:")[-1], _re2.M))) if "Axioms:" in out_pa else []
+        ctx.obligation("C16:Print Assumptions d2_all_proved (53 generated second-order lemmas) compiles", ok_pa, out_pa[-800:])
+        ctx.extra.setdefault("print_assumptions", {})["C16_second_order_constructors"] = ax
     table = json.load(open(os.path.join(vlib.BUILD, "c16_derivs_table.json")))
     # second-order constructors: the generated list of proved lemmas (coq/C16/Deriv2All.v) vs the exported functions
     src = open(os.path.join(vlib.COQ, "C16", "Deriv2All.v")).read()
@@ -439,7 +497,13 @@ def run(ctx):
     ok4, bad4 = run_corr(ctx, "whloop", wc, HEADER)
     ctx.obligation("correspondence:C16 wh_loop (binary64) == reb_whfast_interaction_step on real and variational Jacobi particles, "
                    "bit-for-bit on %d cases" % len(wc), ok4 and not bad4, "mismatching cases: %s" % [wc[b][3] for b in bad4[:8]])
-    ctx.traces = (len(gc) if ok1 else 0) + (len(dc) if ok2 else 0) + (len(rc) if ok3 else 0) + (len(wc) if ok4 else 0)
+    # ---- correspondence 5: MEGNO bookkeeping
+    mc = megno_cases(ctx, rebound, ctx.scale(120, 1500))
+    ok5, bad5 = run_corr(ctx, "megno", mc, HEADER)
+    ctx.obligation("correspondence:C16 deltad_delta / megno_update / megno / lyapunov (binary64) == reb_tools_megno_* and "
+                   "reb_simulation_megno/lyapunov, bit-for-bit on %d cases" % len(mc), ok5 and not bad5,
+                   "mismatching cases: %s" % [mc[b][3] for b in bad5[:8]])
+    ctx.traces = (len(gc) if ok1 else 0) + (len(dc) if ok2 else 0) + (len(rc) if ok3 else 0) + (len(wc) if ok4 else 0) + (len(mc) if ok5 else 0)
 
     # ---- searcher
     c16_search.search(ctx, rebound, libdir)
